@@ -465,8 +465,14 @@ def check(prog, rep, tier):
     # counting Bloom's set-bit count
     f = prog.method("CountingBloomFilter", "_cnt_number_bits_set")
     rv = [strip_epochs(p.exit[1]) for p in paths(prog, "CountingBloomFilter", f) if p.exit[0] == "return"]
-    okn = len(rv) == 1 and rv[0][0] == "call" and rv[0][1] == ("g", "sum") and rv[0][2][0][0] == "comp" and rv[0][2][0][2] == C(1) and \
-        strip_epochs(rv[0][2][0][3][0][2]) == ("f", SELF, "_bloom", 0) and len(rv[0][2][0][3][0][3]) == 1 and rv[0][2][0][3][0][3][0][:2] == ("cmp", ">") and rv[0][2][0][3][0][3][0][3] == C(0)
+    okn = False
+    if len(rv) == 1 and rv[0][0] == "call" and rv[0][1] == ("g", "sum") and rv[0][2][0][0] == "comp" and rv[0][2][0][2] == C(1) and \
+            strip_epochs(rv[0][2][0][3][0][2]) == ("f", SELF, "_bloom", 0) and len(rv[0][2][0][3][0][3]) == 1:
+        g_ = rv[0][2][0][3][0]
+        el = ("it", g_[1], ("f", SELF, "_bloom", 0))
+        flt = g_[3][0]
+        # the filter keeps exactly the non-zero cells (unsigned): x > 0, x != 0, 0 < x, or x's truthiness
+        okn = flt in (("cmp", ">", el, C(0)), ("cmp", "!=", el, C(0)), ("cmp", "<", C(0), el), ("cmp", ">=", el, C(1)), el)
     if okn:
         rep.ok("C14.bloom-statistics", "CountingBloomFilter: X = number of non-zero cells")
     else:
